@@ -153,6 +153,37 @@ pub fn run(ctx: &Ctx) -> ! {
         add("non_utf8", Some(FileKind::Bytes { hex: "fffe7b22613a2022c328227d80".into() }), None, None, false, &mut rng, &mut ev);
         add("json_scalar", Some(FileKind::Bytes { hex: "3432".into() }), None, None, false, &mut rng, &mut ev);
         add("json_deep", Some(FileKind::Bytes { hex: "5b".repeat(300) }), None, None, false, &mut rng, &mut ev);
+        // well-formed content of an odd shape, per kind of file
+        let odd: &[&str] = if c.name.starts_with("parse_groks") {
+            &["{\"A\": 1}", "{\"A\": null, \"B\": [\"x\"]}", "{\"\": \"x\"}", "{\"PATTERN_A\": \"%{\"}", "{\"A\\u0000\": \"x\"}", "{\"PATTERN_A\": \"%{NOSUCH:x}\"}", "{\"PATTERN_A\": \"(\"}", "{\"PATTERN_A\": \"username=%{USERNAME:username\"}", "{}", "[]", "null", "\"s\"", "{\"PATTERN_A\": {\"nested\": \"x\"}}", " ", "\n"]
+        } else if c.name.starts_with("parse_etld") {
+            &["!", "*.", "*", "!\n*.\n", "acmecorp\r\n*.ck\r\n!www.ck\r\n", "acmecorp", "// only a comment\n", "\n\n\n", ".", "..", "a..b", "*.*.x", "!!x", "xn--\n", " acmecorp \n", "ACMECORP\n", "\u{feff}acmecorp\n"]
+        } else if c.name.starts_with("validate_json_schema") {
+            &["true", "false", "{\"$ref\": \"#\"}", "{\"properties\": []}", "{\"type\": \"string\", \"format\": 5}", "{\"$id\": 7}", "{\"type\": [\"string\", 3]}", "{\"$schema\": \"http://unknown.example/schema\"}", "[]", "\"s\"", "null", "{\"type\": \"object\", \"properties\": {\"productUser\": {\"$ref\": \"#/definitions/missing\"}}}", "{\"type\": \"object\", \"required\": \"productUser\"}", "{\"pattern\": \"(\"}", "{\"properties\": {\"productUser\": {\"type\": \"string\", \"pattern\": \"[\"}}}", "{\"$ref\": \"http://example.com/remote.json\"}", "{\"$ref\": \"file:///etc/passwd\"}", "{\"minimum\": \"x\", \"multipleOf\": 0}", "{\"enum\": 3}"]
+        } else {
+            &[]
+        };
+        for (oi, text) in odd.iter().enumerate() {
+            let hex: String = text.as_bytes().iter().map(|b| format!("{b:02x}")).collect();
+            add(&format!("odd_content_{oi}"), Some(FileKind::Bytes { hex }), None, None, false, &mut rng, &mut ev);
+        }
+        // a long line / a large but valid object
+        if c.name.starts_with("parse_etld") {
+            let hex: String = format!("{}\nacmecorp\n", "x".repeat(5000)).bytes().map(|b| format!("{b:02x}")).collect();
+            add("long_line", Some(FileKind::Bytes { hex }), None, None, false, &mut rng, &mut ev);
+        }
+        if c.name.starts_with("parse_groks") {
+            let big = format!("{{{}}}", (0..400).map(|i| format!("\"P{i}\": \"v{i}\"")).collect::<Vec<_>>().join(", "));
+            let hex: String = big.bytes().map(|b| format!("{b:02x}")).collect();
+            add("many_entries", Some(FileKind::Bytes { hex }), None, None, false, &mut rng, &mut ev);
+        }
+        if !c.text_file {
+            for other in ["tests/data/protobuf/test_protobuf/v1/test_protobuf.desc", "tests/data/protobuf/test_protobuf3/v1/test_protobuf3.desc", "tests/data/protobuf/test_protobuf_maps/v1/test_protobuf_maps.desc"] {
+                if other != c.fixture {
+                    add("other_valid_descriptor_set", Some(FileKind::Content { from: other.into(), truncate: None, flip_bit: None, append: None }), None, None, false, &mut rng, &mut ev);
+                }
+            }
+        }
         if !c.text_file {
             add("wrong_message_name", Some(content(None, None, None)), None, None, true, &mut rng, &mut ev);
         }
